@@ -27,7 +27,7 @@ def table_findings():
         rows.append(f"| {f['property']} | {f['status']} | {('`'+f['commit']+'`') if f.get('commit') else ''} | {w} |")
     return "\n".join(rows)
 def table_detection():
-    rows=["| property | own mutants detected / total (quick) | independent seeds kept (rounds 1-3) | detected by the first run of the check | detected now | first missed, caught after strengthening | still missed |","|---|---|---|---|---|---|---|"]
+    rows=["| property | own mutants detected / total (quick) | independent seeds kept (rounds 1-4) | detected by the first run of the check | detected now | first missed, caught after strengthening | still missed |","|---|---|---|---|---|---|---|"]
     res=collections.defaultdict(dict)
     p=f'{V}/mutants/RESULTS.tsv'
     if os.path.exists(p):
@@ -35,7 +35,7 @@ def table_detection():
             f=l.rstrip('\n').split('\t')
             if len(f)>=3: res[f[0]][f[1]]=f[2]
     first={}
-    for fn in ('ROUND1-first-run.tsv','ROUND2-first-run.tsv','ROUND3-first-run.tsv'):
+    for fn in ('ROUND1-first-run.tsv','ROUND2-first-run.tsv','ROUND3-first-run.tsv','ROUND4-first-run.tsv'):
         if os.path.exists(f'{V}/seeded/{fn}'):
             for l in open(f'{V}/seeded/{fn}'):
                 f=l.split()
